@@ -1,2 +1,4 @@
 //! Generators (proptest strategies). Sound first, then complete; construction over rejection.
 pub mod names;
+pub mod msg;
+pub mod to_hickory;
